@@ -3,6 +3,8 @@ import OapiVerif.Model.Prune
 import OapiVerif.Model.Filter
 import OapiVerif.Model.Codec
 import OapiVerif.Model.Paths
+import OapiVerif.Model.Names
+import OapiVerif.Model.Responses
 /-!
 Line-protocol driver: one JSON object per line in, one per line out.
 `{"fn": <name>, ...}` ↦ `{"ok": <result>}` or `{"err": "bad-op"}` (never a default).
@@ -173,6 +175,78 @@ def routeD (j : Json) : Except String Json := do
     | none => Json.null
     | some (o, b) => Json.mkObj [("id", o.id), ("names", jstrs (b.map (hexStr ·.1))), ("values", jstrs (b.map (hexStr ·.2)))])
 
+/-! code-point strings travel as arrays of numbers; `uni` carries Go's unicode classes for the
+non-ASCII code points of the input: [cp, bits(1 upper,2 lower,4 digit,8 letter,16 number), toUpper, toLower] -/
+def getCps (j : Json) (k : String) : Except String (List Nat) := do
+  let a ← j.getObjValAs? (Array Nat) k
+  pure a.toList
+
+def jcps (l : List Nat) : Json := Json.arr (l.map fun (n : Nat) => Json.num n).toArray
+
+open Names in
+def getUni (j : Json) : Except String Uni := do
+  let rows := (j.getObjValAs? (Array (Array Nat)) "uni").toOption.getD #[]
+  let tbl := rows.toList.filterMap fun r => if r.size == 4 then some (r[0]!, r[1]!, r[2]!, r[3]!) else none
+  let look (c : Nat) := tbl.find? (·.1 == c)
+  let bit (c b : Nat) (dflt : Bool) : Bool := match look c with | some (_, f, _, _) => (f / b) % 2 == 1 | none => dflt
+  pure { isUpper := fun c => bit c 1 (asciiUni.isUpper c), isLower := fun c => bit c 2 (asciiUni.isLower c),
+         isDigit := fun c => bit c 4 (asciiUni.isDigit c), isLetter := fun c => bit c 8 (asciiUni.isLetter c),
+         isNumber := fun c => bit c 16 (asciiUni.isNumber c),
+         toUpper := fun c => match look c with | some (_, _, u, _) => u | none => asciiUni.toUpper c,
+         toLower := fun c => match look c with | some (_, _, _, l) => l | none => asciiUni.toLower c }
+
+open Names in
+def namesD (j : Json) : Except String Json := do
+  let U ← getUni j
+  let s ← getCps j "s"
+  let norm : Str → Str := match (j.getObjValAs? String "norm").toOption.getD "" with
+    | "ToCamelCaseWithDigits" => toCamelCaseWithDigits U
+    | _ => toCamelCase U
+  pure (Json.mkObj [
+    ("camel", jcps (toCamelCase U s)), ("camelDigits", jcps (toCamelCaseWithDigits U s)),
+    ("prefix", jcps (typeNamePrefix U s)), ("typeName", jcps (schemaNameToTypeName U norm s)),
+    ("sanitize", jcps (sanitizeGoIdentity U s)), ("ucFirst", jcps (ucFirst U s)), ("lcFirst", jcps (lcFirst U s)),
+    ("lowerFirsts", jcps (lowercaseFirstCharacters U s)), ("initialism", jcps (replaceInitialism s)),
+    ("mediaType", jcps (mediaTypeToCamelCase U s))])
+
+open Responses in
+def getRName (s : String) : Except String RName :=
+  if s == "default" then pure .dflt
+  else match s.toList with
+    | [d, 'X', 'X'] => if d.isDigit then pure (.range (d.toNat - 48)) else throw "bad-rname"
+    | _ => match s.toNat? with | some n => pure (.code n) | none => throw "bad-rname"
+
+open Responses in
+def responsesD (j : Json) : Except String Json := do
+  let rsj ← j.getObjValAs? (Array Json) "resps"
+  let rs ← rsj.toList.mapM fun r => do
+    let nameS ← r.getObjValAs? String "name"
+    let name ← getRName nameS
+    let cj ← r.getObjValAs? (Array Json) "contents"
+    let cs ← cj.toList.filterMapM fun c => do
+      let ct ← c.getObjValAs? String "ct"
+      let isJson ← c.getObjValAs? Bool "isJson"
+      let hasSchema ← c.getObjValAs? Bool "hasSchema"
+      let ctS := ct.toList.map Char.toNat
+      let media : Media := if isJson then .json
+        else if [w "application/yaml", w "application/x-yaml", w "text/yaml", w "text/x-yaml"].contains ctS then .yaml
+        else if [w "application/xml", w "text/xml", w "application/problems+xml"].contains ctS then .xml else .other
+      match fieldName ctS isJson (nameS.toList.map Char.toNat) with
+      | some f => pure (some (⟨ctS, media, hasSchema, f⟩ : Content))
+      | none => pure (some (⟨ctS, .other, hasSchema, []⟩ : Content))
+    pure (⟨name, cs⟩ : Resp)
+  let str (l : List Nat) : String := String.ofList (l.map Char.ofNat)
+  let cases := (genCases rs).map fun c => Json.mkObj [
+    ("name", str c.name.str),
+    ("ct", match c.ct with | .contains s => Json.mkObj [("contains", str s)] | .equals s => Json.mkObj [("equals", str s)] | .any => Json.str "any"),
+    ("field", match c.field with | some f => Json.str (str f) | none => Json.null)]
+  let qs := (j.getObjValAs? (Array Json) "queries").toOption.getD #[]
+  let answers ← qs.toList.mapM fun q => do
+    let st ← q.getObjValAs? Nat "status"
+    let ct ← q.getObjValAs? String "ct"
+    pure (match parse rs st (ct.toList.map Char.toNat) with | some f => Json.str (str f) | none => Json.null)
+  pure (Json.mkObj [("cases", Json.arr cases.toArray), ("answers", Json.arr answers.toArray)])
+
 def dispatch (fn : String) (j : Json) : Except String Json :=
   match fn with
   | "prune" => prune j
@@ -183,6 +257,8 @@ def dispatch (fn : String) (j : Json) : Except String Json :=
   | "parseQuery" => parseQueryD j
   | "bindStyled" => bindStyledD j
   | "bindQuery" => bindQueryD j
+  | "responses" => responsesD j
+  | "names" => namesD j
   | "scan" => scanD j
   | "sortParams" => sortParamsD j
   | "route" => routeD j
